@@ -33,6 +33,17 @@ Proof.
   unfold hvcc_rec in E. nrun E. unfold pret in E. injection E as <- _ _. reflexivity.
 Qed.
 
+Lemma uuid_name h r l rsv r' : dec_uuid h r = Ok ((l, rsv), r') -> leaf_name l = n_uuid.
+Proof.
+  intros H. unfold dec_uuid in H. apply pbind_ok in H. destruct H as (u & r0 & _ & H).
+  destruct (bytes_eqb u uuid_tfxd); [nrun H; unfold pret in H; injection H as <- _ _; reflexivity|].
+  destruct (bytes_eqb u uuid_tfrf); [nrun H; unfold pret in H; injection H as <- _ _; reflexivity|].
+  destruct (bytes_eqb u uuid_piff).
+  - destruct (h_size h <? 16); [discriminate H|]. apply pbind_ok in H. destruct H as ([l0 rsv0] & r1 & _ & H). cbn [fst] in H.
+    destruct l0; try discriminate H. unfold pret in H. injection H as <- _ _. reflexivity.
+  - destruct (h_size h <? 24); [discriminate H|]. nrun H. unfold pret in H. injection H as <- _ _. reflexivity.
+Qed.
+
 Lemma elng_name h r l rsv r' : dec_elng h r = Ok ((l, rsv), r') -> leaf_name l = n_elng.
 Proof.
   intros H. unfold dec_elng in H. destruct (payload_len h <? 7).
@@ -56,11 +67,12 @@ Proof.
               | exact lossless_url | exact lossless_avcC | exact lossless_btrt | exact lossless_pasp | exact lossless_colr
               | exact lossless_clap | exact lossless_schm | exact lossless_cslg
               | exact lossless_senc | exact lossless_emsg | exact lossless_elng | exact lossless_kind
-              | exact lossless_hvcC | exact lossless_subs | exact lossless_esds ];
+              | exact lossless_hvcC | exact lossless_subs | exact lossless_esds | exact lossless_uuid ];
     intros h r l rsv r' Hn H;
     try (apply (avcC_name _ _ _ _ _ H));
     try (apply (hvcC_name _ _ _ _ _ H));
     try (apply (esds_name _ _ _ _ _ H));
+    try (apply (uuid_name _ _ _ _ _ H));
     try (apply (elng_name _ _ _ _ _ H));
     try (unfold dec_mdat in H; destruct (rdB (payload_len h) r) as [[x r1]| | |]; injection H; intros; subst; reflexivity);
     unfold dec_ftyp, dec_free, dec_mfhd, dec_tfhd, dec_tfdt, dec_trun, dec_mvhd, dec_tkhd, dec_sidx, dec_trex, dec_mdhd,
